@@ -132,7 +132,16 @@ func runC19(c *Ctx, d c19Desc) {
 			name := fmt.Sprintf("b%d", i)
 			code := int32(i % 7)
 			want[name] = code
-			if err := sup.Exec(ctx, &supvmodel.ExecRequest{Domain: "runtime", Name: name, Path: "/bin/sh", Args: []string{"-c", fmt.Sprintf("exit %d", code)}}); err != nil {
+			// every other process is started on behalf of a request whose context ends when Exec has returned
+			// (the request context is not the lifetime of the process: its event is owed all the same)
+			ectx, ecancel := context.WithCancel(ctx)
+			err := sup.Exec(ectx, &supvmodel.ExecRequest{Domain: "runtime", Name: name, Path: "/bin/sh", Args: []string{"-c", fmt.Sprintf("sleep 0.0%d; exit %d", i%5, code)}})
+			if i%2 == 1 {
+				ecancel()
+			} else {
+				defer ecancel()
+			}
+			if err != nil {
 				c.Inconclusive("exec failed: " + err.Error())
 				close(readGate)
 				return
